@@ -9,18 +9,18 @@ VERIF = os.path.dirname(HERE)
 
 LEVEL_TEXT = {
     "C01": "Repository-specific static analysis (Go SSA dominance facts + clang-AST CFG must-facts) decides necessary structural conditions of the acceptance set: the untrusted signature is parsed, result-checked and G1-checked before any pairing or VALID result, all Go guards dominate the cgo call, `true` only from C VALID, identity flag recomputed on every constructed key. It holds for all inputs because it is a statement about every path; it does not decide the pairing arithmetic.",
-    "C02": "Static must-fact analysis of both C grouping paths (sanitisation + sibling agreement + infinity skipping in the multi-pairing) and of the Go guards/def-use of VerifyBLSSignatureManyMessages/OneMessage. Decides necessary conditions for every input; the algebraic equality of the verdict with the pairing-product definition is not decided.",
+    "C02": "Static must-fact analysis of both C grouping paths (sanitisation + sibling agreement + infinity skipping in the multi-pairing) and of the Go guards/def-use of VerifyBLSSignatureManyMessages/OneMessage, hash provenance/alignment, offset advance on every path of the C grouping loops. Decides necessary conditions for every input; the algebraic equality of the verdict with the pairing-product definition is not decided.",
     "C03": "Path enumeration of the C batch loop body (every path multiplies both by one coefficient or rejects-and-neutralises), coefficient provenance (≥128 fresh bits, non-zero, per-index), tree split agreement between builder and verifier, Go-side seed provenance from crypto/rand and all-false-on-error. Necessary conditions; the 2^-128 bound is not decided.",
     "C04": "Identity-flag recomputation for every constructed key, documented error clauses, reader-result discipline of every ERROR-returning parser call in the C glue. Necessary conditions; group arithmetic is not decided.",
     "C05": "Byte-coverage of accepting decoder paths, validation-dominates-acceptance for every C reader and Go decoder, reader/writer layout tables (and vs. the cited ZCash order), fixed-width encoders. Necessary conditions of canonicity; exactness of the accepted set needs field arithmetic and is not decided.",
     "C06": "Post-verification dominates the stateful result, stateless validation guards, flat-buffer extents for the interpolation call, Lagrange limb-batching overflow/sign/skip rules and read-before-interpolate ordering in C. Necessary conditions; polynomial consistency is not decided.",
-    "C07": "Only necessary conditions of agreement that are visible in one participant's code: information flow into the disqualification verdict, completion-site agreement, no blind overwrite of complaint records, monotone verdict, vector intake checks, Joint-Feldman key selection and failure comparison.",
-    "C08": "Typestate fixpoint over the DKG handler set (abstract states = valuations of the instance's boolean fields + ghost predicates) for complaint-once, effect-free duplicates, dealer answers, invalid-vector ⇒ never keys; plus ownership of validKey and shape of the disqualification rules.",
-    "C09": "cgo extent contracts proved at every call site (with requirements propagated through unexported wrappers to the exported API), range guards before every index/narrowing of untrusted integers, reachable explicit panics = documented set, no index of unallocated slice fields in any reachable handler state, C readers re-check lengths. Over-approximating (every report is a CFG path), so `no report` covers all inputs for the constructs enumerated.",
+    "C07": "Only necessary conditions of agreement that are visible in one participant's code: information flow into the disqualification verdict, completion-site agreement, no blind overwrite of complaint records or of an already received answer, monotone verdict, vector intake checks, Joint-Feldman key selection and failure comparison.",
+    "C08": "Typestate fixpoint over the DKG handler set (abstract states = valuations of the instance's boolean fields + ghost predicates) for complaint-once, effect-free duplicates, dealer answers, invalid-vector ⇒ never keys, unanswered/unchecked own complaint ⇒ never keys; plus ownership of validKey and shape of the disqualification rules.",
+    "C09": "cgo extent contracts proved at every call site (with requirements propagated through unexported wrappers to the exported API), range guards before every index/narrowing of untrusted integers, interval proof of computed fixed-array indices, reachable explicit panics = documented set, no index of unallocated slice fields in any reachable handler state, C readers re-check lengths. Over-approximating (every report is a CFG path), so `no report` covers all inputs for the constructs enumerated.",
     "C10": "Per-path guard/effect discipline and typestate fixpoint of the three DKG state machines: refusals are typed and effect-free, NextTimeout twice, End after both and clears running, range before index.",
     "C11": "Narrow: hasher/length rejection clauses decided exactly; verdict is exactly crypto/ecdsa.Verify on (key, hash(data), r, s); format-check comparison shapes; algorithm↔curve tables agree. The ECDSA equation lives in the standard library and is not decided.",
     "C12": "Narrow: seed-length clause in both signers, no nondeterminism reaches a generated key, BLS key returned only if non-zero, key material written only by constructors, HKDF parameter constants.",
-    "C13": "Narrow: KMAC argument rejection, Reset/Clone ordering (ComputeHash independent of prior writes, shared state untouched), init-block provenance, FIPS-202 parameter relations of every sponge literal, rate table ⊆ xor helper support, bytepad congruence.",
+    "C13": "Narrow: KMAC argument rejection, Reset/Clone ordering (ComputeHash independent of prior writes, shared state untouched), init-block provenance, FIPS-202 parameter relations of every sponge literal, rate table ⊆ xor helper support, bytepad congruence, sponge buffer discipline.",
     "C14": "Narrow: length rejections, Store/Restore layout agreement, byte counter updated on every Read path, zero message really zero, one block-size constant in Restore.",
     "C15": "Narrow: UnitN returns only under random ≤ n-1 with no remainder on the sample, Fisher–Yates index shapes, argument-error clauses, no other randomness source.",
     "C16": "Sufficient (under KMAC key separation): for all tags tag‖SIG-suite ≠ POP-suite decided from the constants, key provenance is exactly tag‖const, PoP hasher confined to the two PoP functions and never handed out, identity key rejected.",
